@@ -289,7 +289,7 @@ func roInitKinds() {
 	for i := 0; i < 4; i++ {
 		roKinds = append(roKinds, "pkt4", "pkt4-loose", "wire4", "wire4", "msg6", "msg6-loose", "wire6", "wire6")
 	}
-	roKinds = append(roKinds, "duid", "duid", "labels", "archs")
+	roKinds = append(roKinds, "duid", "duid", "labels", "archs", "msg6-generic", "msg6-generic", "msg6-generic")
 	for _, c := range knownCodes6 {
 		roKinds = append(roKinds, fmt.Sprintf("opt6:%d", c))
 	}
@@ -338,6 +338,35 @@ func roGenRoot(kind string, r *Rng) (root reflect.Value, ok bool) {
 		return wrap(genMsg6(r, r.Range(0, 3), false))
 	case kind == "msg6-loose":
 		return wrap(genMsg6(r, r.Range(0, 3), true))
+	case kind == "msg6-generic":
+		// hand-built, as a forwarding agent that does not parse what it carries holds it:
+		// one option (of a relay message preferably the relay-message option) kept as an
+		// OptionGeneric with the option's own code and encoded value - an accessor that
+		// parses it on demand must not write the result back (seeded change C20-11)
+		m := genMsg6(r, r.Range(1, 2), false)
+		var os *dhcpv6.Options
+		switch v := m.(type) {
+		case *dhcpv6.Message:
+			os = &v.Options.Options
+		case *dhcpv6.RelayMessage:
+			os = &v.Options.Options
+		}
+		if os != nil && len(*os) > 0 {
+			k := r.Intn(len(*os))
+			if r.Chance(2, 3) {
+				for i, o := range *os {
+					if o.Code() == dhcpv6.OptionRelayMsg {
+						k = i
+					}
+				}
+			}
+			o := (*os)[k]
+			func() {
+				defer func() { recover() }()
+				(*os)[k] = &dhcpv6.OptionGeneric{OptionCode: o.Code(), OptionData: o.ToBytes()}
+			}()
+		}
+		return wrap(m)
 	case kind == "wire6":
 		for i := 0; i < 8; i++ {
 			b, _ := genWire6(r)
